@@ -100,6 +100,14 @@ def o_find(tseq: str, qseq: str, ntp: int, nqp: int, ignore_mods: bool, tp0: int
     sub = SF.is_subsequence(q, t, order=True) if not ignore_mods else None
     if sub is not None and sub != (len(want) > 0):
         return _fail(why="is_subsequence(order=True)", got=sub, want=len(want) > 0)
+    # the annotation methods are entry points of their own (the module-level functions do not go through all of them)
+    if not ignore_mods:
+        m1 = q.is_subsequence(t)
+        if m1 != (len(want) > 0):
+            return _fail(why="annotation.is_subsequence", target=t.serialize(), query=q.serialize(), got=m1, want=len(want) > 0)
+        m2 = list(q.find_indices(t))
+        if m2 != want:
+            return _fail(why="annotation.find_indices", target=t.serialize(), query=q.serialize(), got=m2, want=want)
     return True
 
 
